@@ -126,6 +126,16 @@ func c12Agreement(c *vh.Case) {
 		got.Store(string(req.Params.Arguments))
 		return &mcp.CallToolResult{Content: []mcp.Content{&mcp.TextContent{Text: "ok"}}}, nil
 	})
+	// tools/list can be made slow, so that a call can be issued while a list is in flight
+	var listDelayMs atomic.Int64
+	server.AddReceivingMiddleware(func(next mcp.MethodHandler) mcp.MethodHandler {
+		return func(ctx context.Context, method string, req mcp.Request) (mcp.Result, error) {
+			if d := listDelayMs.Load(); d > 0 && method == "tools/list" {
+				time.Sleep(time.Duration(d) * time.Millisecond)
+			}
+			return next(ctx, method, req)
+		}
+	})
 	var h http.Handler = mcp.NewStreamableHTTPHandler(func(*http.Request) *mcp.Server { return server }, &mcp.StreamableHTTPOptions{Stateless: true})
 	// 1/3: the endpoint sits behind bearer authorization whose token rotates now and then, so
 	// some requests are answered 401 first and re-sent by the client after re-authorizing
@@ -143,7 +153,13 @@ func c12Agreement(c *vh.Case) {
 		})
 	}
 	ip := &vhm.InProc{Handler: h, LocalAddr: &net.TCPAddr{IP: net.IPv4(127, 0, 0, 1), Port: 8080}}
-	client := mcp.NewClient(&mcp.Implementation{Name: "c", Version: "1"}, nil)
+	// 1/2: the client listens for tool-list changes (on 2026-07-28 that opens a subscriptions/listen stream)
+	var copts *mcp.ClientOptions
+	listens := oh == nil && r.Bool()
+	if listens {
+		copts = &mcp.ClientOptions{ToolListChangedHandler: func(context.Context, *mcp.ToolListChangedRequest) {}}
+	}
+	client := mcp.NewClient(&mcp.Implementation{Name: "c", Version: "1"}, copts)
 	ct := &mcp.StreamableClientTransport{Endpoint: "http://localhost:8080/mcp", HTTPClient: ip.Client()}
 	if oh != nil {
 		ct.OAuthHandler = oh
@@ -212,9 +228,52 @@ func c12Agreement(c *vh.Case) {
 				nontrivial = true
 			}
 		}
+		// what happened since the client listed the tools: nothing; the list is being fetched again right now; the
+		// server's tool set changed (and said so); or both at once. None of this makes the call any less legitimate.
+		disturb := "none"
+		if oh == nil {
+			disturb = r.Choose("none", "none", "relist-in-flight", "list-changed", "relist-during-change")
+			if !listens && disturb != "none" {
+				disturb = "relist-in-flight"
+			}
+		}
+		var bg sync.WaitGroup
+		extra := func() {
+			server.AddTool(&mcp.Tool{Name: fmt.Sprintf("extra%d-%d", c.Index, k), InputSchema: json.RawMessage(`{"type":"object"}`)}, func(context.Context, *mcp.CallToolRequest) (*mcp.CallToolResult, error) {
+				return &mcp.CallToolResult{}, nil
+			})
+		}
+		relist := func() {
+			listDelayMs.Store(30)
+			bg.Add(1)
+			go func() {
+				defer bg.Done()
+				for _, err := range cs.Tools(ctx, nil) {
+					if err != nil {
+						break
+					}
+				}
+			}()
+			time.Sleep(time.Millisecond)
+		}
+		switch disturb {
+		case "relist-in-flight":
+			relist()
+		case "list-changed":
+			extra()
+			time.Sleep(50 * time.Millisecond) // past the debounce: the notification has been handled
+		case "relist-during-change":
+			relist()
+			extra()
+			time.Sleep(20 * time.Millisecond) // notification handled while the list is still in flight
+		}
+		c.Seen("agreement_disturbances", disturb)
+		specCalls = append(specCalls, map[string]any{"disturbance": disturb})
 		specCalls = append(specCalls, args)
 		before := calls.Load()
 		res, err := cs.CallTool(ctx, &mcp.CallToolParams{Name: "t", Arguments: args})
+		listDelayMs.Store(0)
+		bg.Wait()
 		sent, _ := json.Marshal(args)
 		if err != nil {
 			key := "client-server-disagree"
